@@ -46,7 +46,7 @@ type C15Case struct {
 var c15Ns = []string{"ns1", "ns2"}
 var c15PodNames = []string{"a-1", "a-2", "b-1", "c-1"}
 var c15NPNames = []string{"p1", "p2", "p3"}
-var c15ANPNames = []string{"anp1", "anp2", "anp3"}
+var c15ANPNames = []string{"anp1", "anp2", "anp3", "anp4"}
 
 func genC15Pod(t *rapid.T, l string) C15Pod {
 	name := rapid.SampledFrom(c15PodNames).Draw(t, l+"pod")
@@ -67,7 +67,7 @@ func genC15NP(t *rapid.T, l string) NetPol {
 func genC15(t *rapid.T) *C15Case {
 	c := &C15Case{}
 	n := rapid.IntRange(1, 40).Draw(t, "nsteps")
-	kinds := []string{"insNs", "insNs", "delNs", "insPod", "insPod", "insPod", "insPod", "delPod", "insNP", "insNP", "insNP", "delNP", "insANP", "insANP", "delANP", "insBANP", "delBANP", "setRes", "query"}
+	kinds := []string{"insNs", "insNs", "delNs", "insPod", "insPod", "insPod", "insPod", "delPod", "insNP", "insNP", "insNP", "delNP", "insANP", "insANP", "insANP", "insANP", "delANP", "delANP", "insBANP", "delBANP", "setRes", "query"}
 	cfg := &GenCfg{NoNamedRisk: true}
 	for s := 0; s < n; s++ {
 		l := fmt.Sprintf("s%d", s)
@@ -92,6 +92,21 @@ func genC15(t *rapid.T) *C15Case {
 			op.Name = rapid.SampledFrom(c15NPNames).Draw(t, l+"np")
 		case "insANP":
 			a := genAdminPol(t, l+"anp", false, cfg)
+			if rapid.Bool().Draw(t, l+"broadanp") {
+				// broad, mutually conflicting ANPs: everything selects everything, so that the order of the policies decides
+				all := APeer{Namespaces: &Selector{}}
+				r := ARule{Name: "r", Action: rapid.SampledFrom([]string{"Allow", "Deny", "Pass"}).Draw(t, l+"bact"), Peers: []APeer{all}}
+				if rapid.Bool().Draw(t, l+"bport") {
+					r.HasPorts = true
+					r.Ports = []APort{{Kind: "number", Proto: "TCP", Port: 80}}
+				}
+				a = AdminPol{Subject: all}
+				if rapid.Bool().Draw(t, l+"bdir") {
+					a.Ingress = []ARule{r}
+				} else {
+					a.Egress = []ARule{r}
+				}
+			}
 			a.Name = rapid.SampledFrom(c15ANPNames).Draw(t, l+"aname")
 			a.Priority = rapid.SampledFrom([]int{5, 1, 2, 3, 10, 1000, 0}).Draw(t, l+"prio")
 			op.Admin = &a
